@@ -350,12 +350,6 @@ def new_api(origin, bpath, user='guest', password='guest'):
     return api, cap
 
 
-def enc_seg(b):
-    """independent percent-encoder (RFC 3986 unreserved set)"""
-    return ''.join(chr(x) if (48 <= x <= 57 or 65 <= x <= 90 or 97 <= x <= 122 or x in (45, 46, 95, 126))
-                   else '%%%02X' % x for x in b)
-
-
 def base_dirs(bpath):
     """directory segments of the base URL path (RFC 3986 merge: everything up to the last '/')"""
     parts = bpath.split('/')[:-1]
@@ -406,10 +400,21 @@ def check_request(rep, req, kwargs, origin, bpath, verb, segs, bodyfn, flag, arg
         degenerate = any(n in ('', '.', '..') for n in names)
         sig = SIG_DOT if degenerate else 'C19/segments/%s' % label.split(' ')[0]
         return bad(sig, 'URL %r addresses segments %r, documented %r' % (u, got, exp))
-    # every name is one segment in canonical percent-encoding (no raw reserved or non-ASCII character)
-    want_path = '/' + '/'.join(enc_seg(b) for b in exp)
-    if path != want_path:
-        return bad('C19/encoding/%s' % label.split(' ')[0], 'URL path %r is not the canonical encoding %r' % (path, want_path))
+    # every segment is written in URL-safe form: RFC 3986 pchar characters and well-formed %XX escapes only
+    # (no raw space, control, non-ASCII, '?', '#', '/' inside a segment)
+    pchar = set('abcdefghijklmnopqrstuvwxyzABCDEFGHIJKLMNOPQRSTUVWXYZ0123456789-._~!$&\'()*+,;=:@')
+    i = 0
+    while i < len(path):
+        c = path[i]
+        if c == '%':
+            esc = path[i + 1:i + 3]
+            if len(esc) != 2 or not all(h in '0123456789abcdefABCDEF' for h in esc):
+                return bad('C19/encoding/%s' % label.split(' ')[0], 'URL path %r has a malformed escape at %d' % (path, i))
+            i += 3
+            continue
+        if c != '/' and c not in pchar:
+            return bad('C19/encoding/%s' % label.split(' ')[0], 'URL path %r has the raw character %r' % (path, c))
+        i += 1
     if flag == 'list':
         q = parse_qs(sp.query, keep_blank_values=True)
         if args.get('name') is not None and q.get('name') != [args['name']]:
